@@ -31,7 +31,8 @@ ASSUMPTIONS = ['unbounded resource use (e.g. 1e9 segments) is out of scope: coun
 LABEL_FLOORS = {'outcome-report': 0.2, 'outcome-diagnostic': 0.2, 'hostile': 0.4}
 FLOOR_EXCLUDE_LABEL = 'fuzz-campaign'       # floors are fractions of the generated part
 
-HOSTILE_NUM = ['0', '-1', '1e-300', '1e300', 'nan', 'inf', '-inf', '', 'x', '-0', '1e-40', '3.5', '1e6', '1e308', '-1e308', '1e150']
+HOSTILE_NUM = ['0', '-1', '1e-300', '1e300', 'nan', 'inf', '-inf', '', 'x', '-0', '1e-40', '3.5', '1e6', '1e308', '-1e308', '1e150',
+               '1e-315', '5e-324', '1e-160']      # (subnormal values and a value whose square underflows)
 HOSTILE_CPLX = ['0', '0j', 'nan', 'nanj', 'inf', 'inf+1j', '1e300', '1e308+1e308j', '-1', '1e-300j', 'x', '', '1+', '(1+1j)']
 HOSTILE_INT = ['0', '-1', '', 'x', '1.5', 'nan', '2', '77']
 HOSTILE_PULSE = HOSTILE_INT + ['99999']
@@ -169,7 +170,7 @@ def argv_strategy(draw, big=False):
             flds.append(anytag())
         add(kind, flds)
     if draw(st.integers(0, 7)) == 0:
-        add('--geo-scale', [num(draw(st.sampled_from([0.5, 2.0, 1.0])))] + ([anytag()] if (len(objs) == 1 or contra) and draw(st.integers(0, 3)) == 0 else []))
+        add('--geo-scale', [num(draw(st.sampled_from([0.5, 2.0, 1.0] + ([5e-324, 1e-315, 1e300] if contra else []))))] + ([anytag()] if (len(objs) == 1 or contra) and draw(st.integers(0, 3)) == 0 else []))
     # environment
     if ground == 'ideal':
         add('--medium', [num(0.0), num(0.0), num(0.0)])
